@@ -750,7 +750,17 @@ def _r12(run, prog):
                           for w in ast.walk(lp))]
         stores = [st for st in ast.walk(lp) if isinstance(st, ast.Assign) and isinstance(st.targets[0], ast.Subscript)]
         if not bad and not copies:
+            # a store in both arms of an if/else at the top of the loop body (converted value / value as it is) happens on every pass
+            both_arms = [x for x in lp.body if isinstance(x, ast.If) and x.orelse
+                         and len([st for st in x.body if st in stores]) == 1 and len([st for st in x.orelse if st in stores]) == 1
+                         and len([st for st in stores if any(st is y for y in ast.walk(x))]) == 2]
+            if len(both_arms) == 1 and len(stores) == 2 and all(norm(st.targets[0].slice) == kv for st in stores):
+                stores_top_ok = True
+            else:
+                stores_top_ok = False
             top = [st for st in lp.body if st in stores]
+            if stores_top_ok:
+                top, stores = [stores[0]], [stores[0]]
             if len(stores) != 1 or len(top) != 1:
                 cond = [st for st in stores if st not in lp.body]
                 bad = ((cond or stores or [lp])[0], 'stores an entry only under a condition' if cond else 'does not store each entry exactly once')
